@@ -25,6 +25,22 @@ CHECKS = {
     },
 }
 
+Q = "./provider/internal/queue/"
+CHECKS["C19"] = {
+    "engine": "model",
+    "level": "exploration",
+    "technique": "model-based (state machine) property testing with rapid against a list+set reference model, incl. persist/drain round trips",
+    "level_text": "Generated operation histories are applied to the real queues and to a list-of-prefixes + key-set reference model; order, "
+                  "membership, sizes and the internal prefix trie are compared after every step, every dequeue result is compared, and persist->drain "
+                  "round trips (fresh, pre-filled, over a stale persist) must restore the model state. Exploration level: histories are sampled, not enumerated.",
+    "level_note": "Trusts the reference model (documented absorption rule) and go-datastore's MapDatastore as the persistence substrate; keys always match the "
+                  "prefix they are enqueued under (documented precondition). Crash points inside Persist are not asserted (the property does not define a partial persist).",
+    "parts": [
+        {"part": "provide-queue", "pkg": Q, "test": "TestVerif_C19_ProvideQueue", "quick": 4000, "thorough": 60000},
+        {"part": "reprovide-queue", "pkg": Q, "test": "TestVerif_C19_ReprovideQueue", "quick": 4000, "thorough": 60000},
+    ],
+}
+
 MANIFEST_HEAD = {
     "version": 1,
     "setup_cmd": "bin/check --setup",
